@@ -9,21 +9,6 @@ import Z80.Lemmas.Ctl
 import Z80.Model.Run
 namespace Z80
 
-private theorem takeInt_nmi (a : Arch) : (takeInt a).nmi = a.nmi := by
-  unfold takeInt; split
-  · unfold acceptInt; split
-    · rfl
-    · split <;> rfl
-  · rfl
-
-private theorem preDispatch_nmi (a : Arch) : (preDispatch a).nmi = false := by
-  unfold preDispatch; rw [takeInt_nmi]
-  unfold takeNmi; split
-  · rfl
-  · rename_i h
-    have : (wake a).nmi = a.nmi := by unfold wake; split <;> rfl
-    rw [this] at h ⊢; simpa using h
-
 /-- the architectural outcome and the T-states of a step depend on `arch` alone: any switch
     combination, any stale text, any slice counters give the same result -/
 theorem C17_diag (c : Cpu) (d : Debug) (sl : Slice) :
@@ -48,14 +33,7 @@ theorem C17_history (c0 c0' : Cpu) (h h' : List Event) (e : (run c0 h).arch = (r
 
 /-- no request survives a step that is not a halted idle step, so history cannot leak through the latches -/
 theorem C17_latches (a : Arch) (h : (a.halt && !a.wakes) = false) :
-    (stepArch a).1.int = none ∧ (stepArch a).1.nmi = false := by
-  have e : (stepArch a).1 = (dispatch (preDispatch a)).1 := by
-    simp only [stepArch, h, Bool.false_eq_true, ↓reduceIte]
-  rw [e]
-  refine ⟨rfl, ?_⟩
-  show (exec _ _ _).nmi = false
-  rw [exec_nmi]
-  exact preDispatch_nmi a
+    (stepArch a).1.int = none ∧ (stepArch a).1.nmi = false := stepArch_latches a h
 
 /-- a halted idle step returns 4 and changes nothing at all -/
 theorem C17_idle (a : Arch) (h : (a.halt && !a.wakes) = true) : stepArch a = (a, 4, none) := by
